@@ -64,6 +64,29 @@ impl Monitor for C05 {
                 ctx.check(&case, &|c, st| self.judge(c, st));
             }
         }
+        // notable literals against the constants and against each other, in every binary operation and both
+        // orders, alone and inside a small expression: conversion factors and round numbers are what a
+        // constant-folding rewrite keys on (seeded change C05-r10: 180/pi folded to a 12-digit constant)
+        {
+            let notable = ["180", "360", "90", "45", "60", "3600", "1000", "1024", "100", "10", "2", "0.5", "57.2957795131", "0.0174532925199", "57.29577951308232", "0.017453292519943295", "3.141592653589793", "2.718281828459045", "6.283185307179586", "1.5707963267948966", "273.15", "2.54", "9.81", "1.8", "32", "12", "24", "7", "365"];
+            let consts = ["pi", "π", "e", "(pi)", "(e)"];
+            let ops = ["+", "-", "*", "/", "%", "^"];
+            for n in notable {
+                for c in consts {
+                    for op in ops {
+                        for (l, r) in [(n, c), (c, n)] {
+                            for form in ["{x}", "({x})", "pi*({x})", "2*{x}", "{x}*3", "0.5+{x}", "sqrt({x})", "abs({x})", "-{x}"] {
+                                if !ctx.mine() {
+                                    continue;
+                                }
+                                let s = form.replace("{x}", &format!("{}{}{}", l, op, r));
+                                ctx.check(&Case::new(ev, "notable", &s, Val::F(0.0)), &|c, st| self.judge(c, st));
+                            }
+                        }
+                    }
+                }
+            }
+        }
         // the same expression evaluated back to back with placeholders that are equal under == but
         // different doubles (0.0 / -0.0, NaN payloads, neighbours of 1)
         for group in super::c14::confusable_groups(ev) {
